@@ -59,44 +59,39 @@ theorem C01_fast_cert (cfg : Config) (m : MatcherI) (inp : Bytes) (hbin : cfg.bi
     reported (sliceByLine cfg m allCont inp).events = selectedLines cfg.lineTerm.asByte (codeSel cfg m) inp :=
   C01_fast cfg m inp hbin hs hfast (lineSafeCheck_sound hcert)
 
-/-! ### The property's own notion of content (F3) -/
+/-! ### The property's own notion of content
 
-/-- the full statement for the slow path, with the property's content -/
-def C01_full : Prop :=
-  ∀ (cfg : Config) (m : MatcherI) (inp : Bytes), cfg.binary = .none → cfg.stopOnNonmatch = false →
-    isLineByLineFast cfg m (Core.new cfg true) = false →
-    reported (sliceByLine cfg m allCont inp).events = selectedLines cfg.lineTerm.asByte (propSel cfg m) inp
+Since the repair of F3 (`lines::without_terminator` under CRLF, /repo cc9628f) what the code hands to the
+matcher is exactly the property's content of the line, for every terminator. -/
 
-def mHasLf : MatcherI := MatcherI.ofFindAt fun h at_ => if 10 ∈ h.drop at_ then some ⟨at_, h.length⟩ else none
+theorem codeSel_eq_propSel (cfg : Config) (m : MatcherI) : codeSel cfg m = propSel cfg m := by
+  funext l
+  simp only [codeSel, lineSel, propSel, MatcherI.isMatch, MatcherI.shortestMatch]
+  rw [withoutTerminator_eq_content]
+
+/-- **slow path, in the property's words**: a line is reported iff the matcher matches its content
+(terminator byte removed, and under CRLF a `\r` before it), flipped by inversion. -/
+theorem C01_content_slow (cfg : Config) (m : MatcherI) (inp : Bytes) (hbin : cfg.binary = .none)
+    (hs : cfg.stopOnNonmatch = false) (hslow : isLineByLineFast cfg m (Core.new cfg true) = false) :
+    reported (sliceByLine cfg m allCont inp).events = selectedLines cfg.lineTerm.asByte (propSel cfg m) inp := by
+  rw [C01_slow cfg m inp hbin hs hslow, codeSel_eq_propSel]
+
+/-- **fast path, in the property's words**, under the per-run certificate -/
+theorem C01_content_fast (cfg : Config) (m : MatcherI) (inp : Bytes) (hbin : cfg.binary = .none)
+    (hs : cfg.stopOnNonmatch = false) (hfast : isLineByLineFast cfg m (Core.new cfg true) = true)
+    (hcert : lineSafeCheck cfg m inp (linesOf cfg m inp) = true) :
+    reported (sliceByLine cfg m allCont inp).events = selectedLines cfg.lineTerm.asByte (propSel cfg m) inp := by
+  rw [C01_fast_cert cfg m inp hbin hs hfast hcert, codeSel_eq_propSel]
+
+/-! ### Non-vacuity -/
+
+def mHasA : MatcherI := MatcherI.ofFindAt fun h at_ => if 97 ∈ h.drop at_ then some ⟨at_, h.length⟩ else none
 def cfgCrlf : Config := { lineTerm := .crlf }
 
-/-- Under CRLF `without_terminator` removes only a full `\r\n`: a line ending in a bare `\n` is handed
-to the matcher with its `\n` (finding F3). Witness: terminator CRLF, input `a\n`, a matcher that looks
-for byte `\n`: the line is reported although its content `a` has no `\n`. -/
-theorem C01_full_fails : ¬ C01_full := by
-  intro h
-  have := h cfgCrlf mHasLf [97, 10] rfl rfl (by decide)
-  revert this
-  decide
+example : isLineByLineFast cfgCrlf mHasA (Core.new cfgCrlf true) = false := by decide
 
-/-- **slow path, with the property's content**, under the decidable guard "no line of the input ends in
-a bare `\n` while the terminator is CRLF" -/
-theorem C01_partial (cfg : Config) (m : MatcherI) (inp : Bytes) (hbin : cfg.binary = .none)
-    (hs : cfg.stopOnNonmatch = false) (hslow : isLineByLineFast cfg m (Core.new cfg true) = false)
-    (hguard : ∀ l ∈ splitLines cfg.lineTerm.asByte inp, bareLfUnderCrlf cfg.lineTerm l = false) :
-    reported (sliceByLine cfg m allCont inp).events = selectedLines cfg.lineTerm.asByte (propSel cfg m) inp := by
-  rw [C01_slow cfg m inp hbin hs hslow]
-  unfold selectedLines
-  have : ((splitLines cfg.lineTerm.asByte inp).map fun l => (l, codeSel cfg m l))
-      = ((splitLines cfg.lineTerm.asByte inp).map fun l => (l, propSel cfg m l)) := by
-    apply List.map_congr_left
-    intro l hl
-    simp only [codeSel, lineSel, propSel, MatcherI.isMatch, MatcherI.shortestMatch,
-      withoutTerminator_eq_content _ _ (hguard l hl)]
-  rw [this]
-
-/-- the guard is satisfiable by a non-trivial input: CRLF mode, `a\r\nb\r\n` -/
-example : ∀ l ∈ splitLines cfgCrlf.lineTerm.asByte [97, 13, 10, 98, 13, 10], bareLfUnderCrlf cfgCrlf.lineTerm l = false := by
-  decide
+/-- CRLF mode, `ab\r\nb\na`: lines 1 and 3 are reported, with their offsets -/
+example : reported (sliceByLine cfgCrlf mHasA allCont [97, 98, 13, 10, 98, 10, 97]).events
+    = [(0, [97, 98, 13, 10]), (6, [97])] := by decide
 
 end RgVerif.Props.C01
